@@ -98,6 +98,25 @@ CLAIMED = {
     ref="DESIGN.md section 3, C10"),
 }
 
+# clauses added after the second wave of seeded changes (appended to the level text)
+ADDED = {
+ "C01": " Added: the relative gap divides by the quantity its guard made positive; every residual norm inside pres/dres/pinfres/dinfres is divided by its own reference norm; the glpk and mosek branches of lp assign each documented quantity by the same expression; block walks initialised from dims start where the preceding blocks end.",
+ "C02": " Added: residual/normaliser pairing inside pinfres/dinfres.",
+ "C03": " Added: relgap and residual pairing; the KKT factories symmetrise after the last lower-triangular contribution (P in 'L' storage) and fully redefine their persistent work matrices; base.gemv's zero-dimension fallback scales by the caller's beta.",
+ "C04": " Added: relgap pairing; 's'-block walks initialised from dims start at dims['l'] + sum(dims['q']) (+ mnl).",
+ "C06": " Added: the factories behind the solver names symmetrise after the last lower-triangular contribution and fully redefine their work matrices per factorisation; start-point walks begin where the preceding blocks end.",
+ "C07": " Added: all copies of one save/restore block go the same direction (one named exception); persistent work matrices of the factories are fully defined before their first read in factor(); triangle typestate lower -> symm -> two-sided ormqr.",
+ "C08": " Added: running index variables seeded from an offset address only that offset's matrix; trisc/triusc run under the same path condition; the compiled kernels special-case a cone block only on size zero, like the Python reference.",
+ "C09": " Added: no file-scope or static variable of the six C files is written outside module initialisation (the gees/gges callback slots are a named exception).",
+ "C11": " Added: negated terms change between the convex and the concave list, copied terms do not.",
+ "C13": " Added: solve, _inmatrixform, tofile and the accessors write nothing reachable from the op except the documented results (effect analysis with self protected).",
+ "C15": " Added: INT/DOUBLE/COMPLEX arms of every typed switch in dense.c/base.c are identical up to the element type; typecode ids are compared with the -1 sentinel by >= 0 / < 0 only; the dense and sparse block constructors refuse the same conversions.",
+ "C17": " Added: the default of an omitted n in the level-1 wrappers equals the number of elements addressed (expression evaluated on a grid); zero-dimension fallbacks of gemv/gbmv/base.gemv scale the same y by the same beta as the main call.",
+ "C18": " Added: the info test rejects every nonzero value (one-sided tests are violations); the two arms write the same hand-written results back; 32-bit pivot scratch arrays are copied in the direction the routine uses them.",
+ "C19": " Added: base.c's calls through the per-type function-pointer tables are covered by the footprint rule; no integer division/modulo by a divisor that a dominating test does not exclude from zero (8 hand-confirmed data invariants with re-checked preconditions); real and complex sparse kernels use the same subscript expressions.",
+ "C20": " Added: the size element of the reduced state is applied by the constructor whenever it is given (also (0,0)).",
+}
+
 NOT_APPLICABLE = {
  "C05": "classification/termination within the iteration budget and agreement of objectives across solver paths are properties of the iterates of a numerical method; no dataflow/typestate/call-graph fact bounds them (its 'no undocumented exception' clause is decided under C10)",
  "C16": "dense-image equality and CCS validity after arbitrary operation histories are invariants over run-time index arrays kept by ~4000 lines of merge loops; establishing them needs loop invariants over array contents (VC generation / symbolic reasoning), outside this family; the memory-safety face is decided under C19",
@@ -118,7 +137,7 @@ def main():
                 "evidence_file": "/verif/evidence/%s.json" % pid,
                 "replay_cmd_template": "./check %s --replay {path}" % pid,
                 "engine": "sa",
-                "level_claimed": {"category": "other", "text": c["text"], "design_ref": c["ref"]},
+                "level_claimed": {"category": "other", "text": c["text"] + ADDED.get(pid, ""), "design_ref": c["ref"]},
                 "level_note": c["note"],
                 "technique": c["technique"],
             })
